@@ -33,8 +33,9 @@ theorem widthOK_widths {used : Int} {labels : List (Option NumW)} {grids : List 
   constructor
   · intro r hr
     have h1 := wo.label_fits i hi r hr
-    have h2 := wo.label_room i hi
-    omega
+    rcases wo.label_room i hi with h2 | h2
+    · omega
+    · rw [h2] at hr; cases hr
   · intro r hr
     rw [gridOf_eq grids i hi] at hr
     have := wo.item_fits i hi r hr
